@@ -147,6 +147,35 @@ func CheckPostings(r *Report, tag string, seg segment.Segment, m *model.Seg, o P
 			}
 			r.Inc("hits_compared", int64(i))
 			r.Inc("terms_compared", 1)
+			// the same list again through Advance, with growing strides (a term query
+			// is answered by Next and Advance alike)
+			if len(hits) >= 2 && !r.Failed() {
+				it2 := pl.Iterator(true, true, true, nil)
+				stride := 1
+				for j := 1; j < len(hits); j += stride {
+					p, err := it2.Advance(hits[j].Doc)
+					if err != nil || p == nil {
+						r.Fail("advance-missing", "%s: Advance(%d): %v, %v", where, hits[j].Doc, p, err)
+						break
+					}
+					if !CompareHit(r, where+" (Advance)", p, &hits[j], true, true) {
+						break
+					}
+					r.Inc("advance_steps", 1)
+					stride++
+					if j+1 < len(hits) && stride%2 == 0 {
+						// and a Next in between
+						p, err := it2.Next()
+						if err != nil || p == nil || !CompareHit(r, where+" (Next after Advance)", p, &hits[j+1], true, true) {
+							if p == nil {
+								r.Fail("advance-missing", "%s: Next after Advance(%d): nil, %v", where, hits[j].Doc, err)
+							}
+							break
+						}
+						j++
+					}
+				}
+			}
 			if len(hits) > 1 {
 				r.Inc("multi_doc_terms", 1)
 			}
